@@ -5,69 +5,76 @@ import (
 	"fmt"
 	"os"
 	"path/filepath"
-	"sort"
 	"time"
 )
 
-func (c *checker) writeEvidence(a, b *runOutcome) {
-	wall := time.Since(c.t0).Seconds()
-	var requests, ticks, switches, mapDec, maxTicks int64
-	faults := map[string]int64{}
-	probes := map[string]int64{}
-	classes := map[string]int64{}
-	cells := map[string]int64{}
-	schedules := map[string]bool{}
-	planDigests := map[string]bool{}
-	opVariants := map[string]bool{}
-	var idx []int
-	for i := range a.results {
-		idx = append(idx, i)
-	}
-	sort.Ints(idx)
-	for _, i := range idx {
-		r := a.results[i]
-		requests += r.Stats.Requests
-		ticks += r.Stats.Ticks
-		switches += r.Stats.Switches
-		mapDec += r.Stats.MapDecisions
-		if r.Stats.MaxTicks > maxTicks {
-			maxTicks = r.Stats.MaxTicks
+// agg accumulates what the runs covered, chunk by chunk.
+type agg struct {
+	runs, runsB                                   int
+	requests, ticks, switches, mapDec, maxTicks   int64
+	faults, probes, classes, cells                map[string]int64
+	schedules, planDigests, opVariants            map[string]bool
+	sitesHit, sitesTotal, workers                 int
+}
+
+func newAgg() *agg {
+	return &agg{faults: map[string]int64{}, probes: map[string]int64{}, classes: map[string]int64{}, cells: map[string]int64{},
+		schedules: map[string]bool{}, planDigests: map[string]bool{}, opVariants: map[string]bool{}}
+}
+
+func (g *agg) absorb(a, b *runOutcome) {
+	for _, r := range a.results {
+		g.runs++
+		g.requests += r.Stats.Requests
+		g.ticks += r.Stats.Ticks
+		g.switches += r.Stats.Switches
+		g.mapDec += r.Stats.MapDecisions
+		if r.Stats.MaxTicks > g.maxTicks {
+			g.maxTicks = r.Stats.MaxTicks
 		}
 		for k, v := range r.Stats.Faults {
-			faults[k] += v
+			g.faults[k] += v
 		}
 		for k, v := range r.Stats.Probes {
-			probes[k] += v
+			g.probes[k] += v
 		}
 		for k, v := range r.Stats.Classes {
-			classes[k] += v
+			g.classes[k] += v
 		}
 		for k, v := range r.Stats.Cells {
-			cells[k] += v
+			g.cells[k] += v
 		}
 		for _, s := range r.Stats.Schedules {
-			schedules[s] = true
+			g.schedules[s] = true
 		}
-		planDigests[r.PlanDigest] = true
-		// a case is non-trivial when the plan exercised a varied dimension at all
+		g.planDigests[r.PlanDigest] = true
+		// a case is non-trivial when its run exercised a varied dimension at all
 		// (non-sorted map order, a fault, an interleaving, a repetition) and produced responses
-		nontrivial := len(r.Stats.Faults) > 0 || r.Stats.Switches > 0
-		if nontrivial {
+		if len(r.Stats.Faults) > 0 || r.Stats.Switches > 0 {
 			for _, d := range r.OpDigests {
-				opVariants[r.PlanDigest+"/"+d] = true
+				g.opVariants[Digest(r.PlanDigest+"/"+d)] = true
 			}
 		}
 	}
 	for _, r := range b.results {
-		requests += r.Stats.Requests
+		g.runsB++
+		g.requests += r.Stats.Requests
 	}
-	sitesHit, sitesTotal := 0, 0
 	for _, f := range a.finals {
-		if f.SitesHit > sitesHit {
-			sitesHit = f.SitesHit
+		if f.SitesHit > g.sitesHit {
+			g.sitesHit = f.SitesHit
 		}
-		sitesTotal = f.SitesTotal
+		g.sitesTotal = f.SitesTotal
 	}
+	g.workers += len(a.finals) + len(b.finals)
+}
+
+func (c *checker) writeEvidence() {
+	wall := time.Since(c.t0).Seconds()
+	g := c.agg
+	requests, ticks, switches, mapDec, maxTicks := g.requests, g.ticks, g.switches, g.mapDec, g.maxTicks
+	faults, probes, classes, cells, schedules, planDigests, opVariants := g.faults, g.probes, g.classes, g.cells, g.schedules, g.planDigests, g.opVariants
+	sitesHit, sitesTotal := g.sitesHit, g.sitesTotal
 	// samples: literal plans
 	var samples []interface{}
 	for _, i := range []int{0, 1, 2} {
@@ -91,10 +98,10 @@ func (c *checker) writeEvidence(a, b *runOutcome) {
 		"distinct_nontrivial": len(opVariants),
 		"rule": "evaluations = request executions against the real service (both passes). A case is one operation of one simulated run (plan digest + operation id + response digest); it is non-trivial when its run exercised at least one simulator-controlled dimension (non-sorted map iteration order, injected fault, clock jump / global-rand reseed, interleaved schedule, transport fault, library-client aliasing); distinct = distinct such strings. Plans are generated from VERIF_SEED (swarm profile per run).",
 		"samples":                     samples,
-		"simulated_runs":              len(a.results),
+		"simulated_runs":              g.runs,
 		"distinct_plans":              len(planDigests),
-		"runs_per_hour":               float64(len(a.results)+len(b.results)) / wall * 3600,
-		"seeds":                       fmt.Sprintf("VERIF_SEED=%d, run i uses mix(seed,property,i), i in [0,%d)", c.seed, c.n),
+		"runs_per_hour":               float64(g.runs+g.runsB) / wall * 3600,
+		"seeds":                       fmt.Sprintf("VERIF_SEED=%d, run i uses mix(seed,property,i), i in [0,%d)", c.seed, c.runsDone),
 		"simulated_steps":             ticks,
 		"simulated_time_note":         "the system has no timers; simulated time is reported as steps (ticks of the inserted scheduling points) and scheduler decisions",
 		"scheduler_switches":          switches,
@@ -115,7 +122,7 @@ func (c *checker) writeEvidence(a, b *runOutcome) {
 		"step_sites_hit":              sitesHit,
 		"step_sites_total":            sitesTotal,
 		"instrumentation":             instr,
-		"worker_processes":            len(a.finals) + len(b.finals),
+		"worker_processes":            g.workers,
 		"components_real":             []string{"lib (all packages)", "httpClient/main.go registries, handlers, router wiring", "gin engine with Logger+Recovery, static, CORS middleware", "encoding/json", "mapstructure", "jsonschema reflector", "net/http server (transport scenarios)"},
 		"components_stubbed":          []string{"TCP sockets -> in-memory net.Pipe listener", "(*gin.Engine).Run -> hands the engine to the simulator", "log / gin log output discarded", "time.Now / global math/rand -> simulated (no call sites on the pinned tree)", "map iteration order -> simulator-chosen permutation"},
 		"notes":                       c.traceNote,
